@@ -92,6 +92,7 @@ impl LockFile {
 			.map_err(|e| Error::Io(Arc::new(e)))?;
 
 		self.file = Some(file);
+		verif_yield!("lock.acquired");
 		Ok(())
 	}
 
@@ -101,6 +102,7 @@ impl LockFile {
 		if let Some(_file) = self.file.take() {
 			// File will be closed when dropped
 		}
+		verif_yield!("lock.released");
 		Ok(())
 	}
 
